@@ -4,6 +4,10 @@
 def replay(case):
     from . import c04, corpus, tv
     t = case['task']; inp = case['inputs']
+    if t['kind'] == 'entry':
+        bad, _ = c04.entry_problems()
+        mine = [b for b in bad if b[:3] == inp['row'][:3]]
+        return {'violates': bool(mine), 'observed': mine[:2] or 'not reproduced', 'key': 'entry:' + str(inp['row'][0])}
     p = next(q for q in corpus.P if q['name'] == t['prog'])
     if t['kind'] == 'special':
         r = c04.judge_concrete(p, inp['args'], t['caller'])
